@@ -42,7 +42,7 @@ Inductive out :=
 | OTrig (t ch a : Z) | OValue (t ch v : Z) | OTrigset (t a m r : Z) | OCfgmode (t : Z)
 | OFinal (t la c ds r : Z) | OFault.
 
-Inductive micro := MTime (t : Z) | MIn (l : Z) | MDeb | MTim | MMot | MTrig (mask : Z).
+Inductive micro := MTime (t : Z) | MIn (l : Z) | MDeb | MTim | MMot | MTrig (mask : Z) | MFault.
 
 Record st := mkst {
   now : Z;
@@ -324,6 +324,7 @@ Definition mact (c : cfgT) (m : micro) (s : st) : st :=
             else s
   | MMot => if m_on s && (m_due s <=? now s) then mot_cb c (set_m_on false s) else s
   | MTrig mask => set_triggers c mask s
+  | MFault => emit OFault s          (* the scheduler below ran out of fuel: never happens in the checked runs *)
   end.
 
 Definition mstep (c : cfgT) (m : micro) (s : st) : st :=
@@ -356,7 +357,7 @@ Definition micro_of (k : tmr) : micro := match k with TD => MDeb | TT => MTim | 
 
 Fixpoint fire_due (c : cfgT) (fuel : nat) (e : Z) (s : st) : st :=
   match fuel with
-  | O => match pick s e with None => s | Some _ => emit OFault s end
+  | O => match pick s e with None => s | Some _ => mstep c MFault s end
   | S f =>
     match pick s e with
     | None => s
